@@ -72,6 +72,10 @@ kind_of_msg(const char *m)
     if (PFX("Invalid Base64 character")) return "B64Char";
     if (PFX("Base64 encoded value length must be divisible by 4")) return "B64Len";
     if (PFX("Newlines are expected every 64 Base64 characters")) return "B64Newline";
+    if (PFX("Failed to convert IPv4 address") || PFX("Failed to convert IPv6 address")) return "InetPton";
+    if ((PFX("Invalid IPv4 prefix") || PFX("Invalid IPv6 prefix")) && HAS("without a prefix length")) return "NoPrefixLen";
+    if (PFX("Invalid LYB ipv") && HAS(" zone character ")) return "LybZone";
+    if (PFX("Invalid LYB ipv") && HAS("-prefix prefix length ")) return "LybPrefixLen";
     if (PFX("Invalid date-and-time month")) return "DtMonth";
     if (PFX("Invalid date-and-time day of month")) return "DtDay";
     if (PFX("Invalid date-and-time hours")) return "DtHour";
